@@ -357,7 +357,6 @@ theorem roundtrip41 (mcov bcov : List Nat) (marks : List Mark) (bases : List (Li
     (hbl : bases.length = bcov.length) (hbn : bases.length < 65536)
     (hrows : ∀ row ∈ bases, row.length = countMarkClasses marks bases)
     (hcc : countMarkClasses marks bases < 65536)
-    (hno : bases.length * countMarkClasses marks bases ≤ 32764)
     (hmk : ∀ m ∈ marks, MarkOk m) (hba : ∀ row ∈ bases, ∀ a ∈ row, AOk a) (b : Bytes)
     (henc : encode41 mcov bcov marks bases = .ok b) :
     read41 b = .ok ⟨mcov.zipIdx, bcov.zipIdx, marks, bases⟩ ∧
@@ -365,6 +364,9 @@ theorem roundtrip41 (mcov bcov : List Nat) (marks : List Mark) (bases : List (Li
   unfold encode41 at henc
   simp only [Cov.encodeLen_eq mcov h1, Cov.encodeLen_eq bcov h2, ← Cov.encodeW_length mcov h1,
     ← Cov.encodeW_length bcov h2, Cov.encode_eq mcov h1, Cov.encode_eq bcov h2] at henc
+  split at henc
+  · simp at henc
+  rename_i hno
   split at henc
   · simp at henc
   rename_i hfit
